@@ -284,15 +284,19 @@ class Inliner:
 
     ARRAY_ITER = M.IDENTITY_CALLS + ("[T]>::iter", "IntoIterator::into_iter", "iter::Iterator::by_ref", "[T; N]>::iter", "array::<impl [T; N]>::iter")
 
+    SEARCHES = tuple("iter::Iterator::" + k for k in ("find", "any", "all", "try_for_each"))
+
     def _unroll_array_search(self, out, blk, t):
         """`[a, b, c].iter().find(p)` / `.any(p)` / `.all(p)` over an array literal with a closure literal: the elements are tried in
         order, which is what the call does. The call becomes the chain of `p(&a)`, `p(&b)`, .. (ordinary calls of the closure, which
         the inliner takes in); tables of rows that a check walks through are then straight-line code."""
         f = t.get("func") or {}
         decl = f.get("fn_path") or ""
-        kind = next((k for k in ("find", "any", "all") if decl.endswith("iter::Iterator::" + k)), None)
+        kind = next((k for k in ("find", "any", "all", "try_for_each") if decl.endswith("iter::Iterator::" + k)), None)
         if kind is None or len(t.get("args", [])) != 2 or t.get("target") is None or (t.get("dest") or {}).get("proj"):
             return None
+        if kind == "try_for_each" and not str(out["mir"]["locals"][t["dest"]["l"]].get("ty", "")).replace(" ", "").startswith(("std::result::Result<(),", "core::result::Result<(),")):
+            return None         # (only the Result<(), E> form of the short-circuit: the first Err ends the walk and is the answer)
         B = M.Body(out)
         os_ = M.trace(B, t["args"][0], self.ARRAY_ITER)
         if len(os_) != 1 or os_[0].kind != "aggregate" or os_[0].rv.get("ak") != "array" or [p_ for p_ in (os_[0].proj or []) if p_ != "deref"]:
@@ -301,11 +305,17 @@ class Inliner:
         if not (1 <= len(elems) <= 8):
             return None
         clo = t["args"][1]
-        if clo.get("k") not in ("copy", "move") or clo["p"].get("proj"):
-            return None
-        cs_ = M.trace(B, clo, M.IDENTITY_CALLS)
-        if len(cs_) != 1 or cs_[0].kind != "aggregate" or not cs_[0].rv.get("closure"):
-            return None
+        fn_item = None
+        if clo.get("k") == "const" and clo.get("fn_path"):
+            fn_item = clo               # `.any(Facet::is_set)`: a function item in the place of a closure literal
+        else:
+            if clo.get("k") not in ("copy", "move") or clo["p"].get("proj"):
+                return None
+            cs_ = M.trace(B, clo, M.IDENTITY_CALLS)
+            if len(cs_) == 1 and cs_[0].kind == "const" and cs_[0].const.get("fn_path") and not cs_[0].proj:
+                fn_item = cs_[0].const
+            elif len(cs_) != 1 or cs_[0].kind != "aggregate" or not cs_[0].rv.get("closure"):
+                return None
         m = out["mir"]
         sp = t.get("sp")
 
@@ -323,6 +333,9 @@ class Inliner:
         # the block that runs when no element made the closure decide
         if kind == "find":
             end_rv = {"k": "aggregate", "ak": "adt", "adt": "std::option::Option", "variant": "None", "ops": []}
+        elif kind == "try_for_each":
+            unit = local("()")
+            end_rv = {"k": "aggregate", "ak": "adt", "adt": "std::result::Result", "variant": "Ok", "fields": ["0"], "ops": [{"k": "move", "p": {"l": unit}}]}
         else:
             end_rv = {"k": "use", "op": {"k": "const", "ty": "bool", "bits": 1 if kind == "all" else 0, "text": "true" if kind == "all" else "false"}}
         nxt = block([{"k": "assign", "p": copy.deepcopy(dest), "rv": end_rv, "sp": sp}], {"k": "goto", "target": target, "sp": sp})
@@ -335,27 +348,59 @@ class Inliner:
                 tmp = local("?")
                 el_place = {"l": tmp}
                 pre = [{"k": "assign", "p": {"l": tmp}, "rv": {"k": "use", "op": copy.deepcopy(el)}, "sp": sp}]
-            r, rr, tup, cr, res = local("&elem"), local("&&elem"), local("(arg,)"), local("&mut closure"), local("bool")
-            hit_rv = ({"k": "aggregate", "ak": "adt", "adt": "std::option::Option", "variant": "Some", "fields": ["0"], "ops": [{"k": "copy", "p": {"l": r}}]} if kind == "find"
-                      else {"k": "use", "op": {"k": "const", "ty": "bool", "bits": 0 if kind == "all" else 1, "text": "false" if kind == "all" else "true"}})
+            r, rr, tup, cr = local("&elem"), local("&&elem"), local("(arg,)"), local("&mut closure")
+            res = local("bool" if kind != "try_for_each" else out["mir"]["locals"][t["dest"]["l"]].get("ty", "?"))
+            if kind == "try_for_each":
+                hit_rv = {"k": "use", "op": {"k": "move", "p": {"l": res}}}
+            elif kind == "find":
+                hit_rv = {"k": "aggregate", "ak": "adt", "adt": "std::option::Option", "variant": "Some", "fields": ["0"], "ops": [{"k": "copy", "p": {"l": r}}]}
+            else:
+                hit_rv = {"k": "use", "op": {"k": "const", "ty": "bool", "bits": 0 if kind == "all" else 1, "text": "false" if kind == "all" else "true"}}
             hit = block([{"k": "assign", "p": copy.deepcopy(dest), "rv": hit_rv, "sp": sp}], {"k": "goto", "target": target, "sp": sp})
-            # find / any stop at the first `true`, all stops at the first `false`
-            stop_on = 0 if kind == "all" else 1
-            sw = block([], {"k": "switch", "discr": {"k": "move", "p": {"l": res}}, "targets": [[0, hit if stop_on == 0 else nxt]],
-                            "otherwise": nxt if stop_on == 0 else hit, "sp": sp, "unrolled": decl})
+            if kind == "try_for_each":
+                # the walk ends at the first Err, which is the answer
+                d = local("isize")
+                sw = block([{"k": "assign", "p": {"l": d}, "rv": {"k": "discr", "p": {"l": res}}, "sp": sp}],
+                           {"k": "switch", "discr": {"k": "move", "p": {"l": d}}, "targets": [[0, nxt]], "otherwise": hit, "sp": sp, "unrolled": decl})
+            else:
+                # find / any stop at the first `true`, all stops at the first `false`
+                stop_on = 0 if kind == "all" else 1
+                sw = block([], {"k": "switch", "discr": {"k": "move", "p": {"l": res}}, "targets": [[0, hit if stop_on == 0 else nxt]],
+                                "otherwise": nxt if stop_on == 0 else hit, "sp": sp, "unrolled": decl})
             arg = {"k": "move", "p": {"l": rr}} if kind == "find" else {"k": "copy", "p": {"l": r}}
             stmts = pre + [
                 {"k": "assign", "p": {"l": r}, "rv": {"k": "ref", "bk": "Shared", "p": el_place}, "sp": sp},
                 {"k": "assign", "p": {"l": rr}, "rv": {"k": "ref", "bk": "Shared", "p": {"l": r}}, "sp": sp},
-                {"k": "assign", "p": {"l": tup}, "rv": {"k": "aggregate", "ak": "tuple", "ops": [arg]}, "sp": sp},
-                {"k": "assign", "p": {"l": cr}, "rv": {"k": "ref", "bk": "Shared", "p": copy.deepcopy(clo["p"])}, "sp": sp},
             ]
-            call = block(stmts, {"k": "call", "func": {"k": "const", "ty": "unrolled", "fn_path": "std::ops::FnMut::call_mut", "gargs": [], "text": "FnMut::call_mut"},
-                                 "args": [{"k": "move", "p": {"l": cr}}, {"k": "move", "p": {"l": tup}}], "dest": {"l": res}, "target": sw, "sp": sp, "fn_sp": t.get("fn_sp")})
+            if fn_item is not None:
+                call = block(stmts, {"k": "call", "func": copy.deepcopy(fn_item), "args": [arg], "dest": {"l": res}, "target": sw, "sp": sp, "fn_sp": t.get("fn_sp"),
+                                     "through_pointer": True})
+            else:
+                stmts += [
+                    {"k": "assign", "p": {"l": tup}, "rv": {"k": "aggregate", "ak": "tuple", "ops": [arg]}, "sp": sp},
+                    {"k": "assign", "p": {"l": cr}, "rv": {"k": "ref", "bk": "Shared", "p": copy.deepcopy(clo["p"])}, "sp": sp},
+                ]
+                call = block(stmts, {"k": "call", "func": {"k": "const", "ty": "unrolled", "fn_path": "std::ops::FnMut::call_mut", "gargs": [], "text": "FnMut::call_mut"},
+                                     "args": [{"k": "move", "p": {"l": cr}}, {"k": "move", "p": {"l": tup}}], "dest": {"l": res}, "target": sw, "sp": sp, "fn_sp": t.get("fn_sp")})
             revisit.append(call)
             nxt = call
         blk["term"] = {"k": "goto", "target": nxt, "sp": sp, "unrolled": decl}
         return revisit
+
+    def _late_searches(self, out, work, late):
+        """a search over a table that a helper hands out (`self.bounds().iter().try_for_each(..)`) can be unrolled only once the
+        helper has been taken in: when the work list has run dry, the searches that are left are looked at once more"""
+        if not self.closures or late[0] >= 4:
+            return False
+        late[0] += 1
+        for blk in out["mir"]["blocks"]:
+            t = blk.get("term") or {}
+            if t.get("k") == "call" and not t.get("unroll_tried_late") and ((t.get("func") or {}).get("fn_path") or "").endswith(self.SEARCHES):
+                t["unroll_tried_late"] = True
+                again = self._unroll_array_search(out, blk, t)
+                if again is not None:
+                    work.extend((b, 0) for b in again)
+        return bool(work)
 
     def _indirect_callee(self, out, t):
         """a call through a function pointer / callable local that is, on every path, one closure literal of this body (a table row
@@ -581,7 +626,8 @@ class Inliner:
         m = out["mir"]
         self.inlined = []
         work = [(i, 0) for i in range(len(m["blocks"]))]
-        while work:
+        late = [0]
+        while work or self._late_searches(out, work, late):
             bi, depth = work.pop()
             blk = m["blocks"][bi]
             t = blk.get("term") or {}
